@@ -14,3 +14,4 @@ def run(chk):
     core_rules.strategy_allocate_rules(chk, "C02")
     core_rules.coupon_accrual(chk, "C02")
     core_rules.ownership_rules(chk, "C02", roles=("CAPITAL", "POSITION"))
+    core_rules.refresh_before_trade(chk, "C02")
